@@ -359,6 +359,7 @@ def run_history(ctx, seed_rng, stats, on_case):
 def search(ctx):
   stats = collections.Counter()
   seen = collections.Counter()
+  c04.regression_corpus(ctx, ID, replay_kind)
   import random
   for h in range(ctx.n(2, 60)):
     rng = random.Random(ctx.rng.getrandbits(48))
